@@ -942,7 +942,9 @@ def gen_source_ref(repo, outdir, notes):
     filtered = gsb == ["used = {ref['file'] for ref in REFS}", "return {name: src for name, src in USED_SOURCES.items() if name in used}"]
     if not filtered and gsb != ["return USED_SOURCES"]:
         fail(gs, "get_sources: unrecognised body")
-    by_path = any("_SOURCE_PATHS.get(filename) != path" in x for x in pre) and any("_SOURCE_PATHS[filename] = path" in x for x in pre) \
+    # validated by path AND modification stamp (mtime, size): stamp = (path, stat.st_mtime_ns, stat.st_size)
+    by_path = any("_SOURCE_PATHS.get(filename) != stamp" in x for x in pre) and any("_SOURCE_PATHS[filename] = stamp" in x for x in pre) \
+        and any("stamp = (path, stat.st_mtime_ns, stat.st_size)" in x for x in pre) and any("stat = os.stat(path)" in x for x in pre) \
         and any(x.startswith("path = backend_frame.f_code.co_filename") for x in pre)
     ti = opt_method("to_index")
     tib = [ast.unparse(s0).replace("\n", " ; ") for s0 in body_nodoc(ti)]
